@@ -63,7 +63,7 @@ fn main() {
         let pwr = &pw;
         // the fixed edge pools give the same answer in every program: complete only in every 8th
         let full = i % 8 == 1;
-        let sections: [(&str, &dyn Fn(&mut Tr, &mut G)); 19] = [
+        let sections: [(&str, &dyn Fn(&mut Tr, &mut G)); 20] = [
             ("section.quantities", &scalars::quantities),
             ("section.states", &scalars::states),
             ("section.commands", &scalars::commands),
@@ -83,6 +83,7 @@ fn main() {
             ("section.api.compare", &move |tr: &mut Tr, g: &mut G| api::compare(tr, g, full)),
             ("section.api.convert", &move |tr: &mut Tr, g: &mut G| api::convert(tr, g, full)),
             ("section.api.setters", &move |tr: &mut Tr, g: &mut G| api::setters(tr, g, full)),
+            ("section.signed_zero", &move |tr: &mut Tr, g: &mut G| scalars::signed_zero(tr, g, full)),
         ];
         for (name, f) in sections {
             guarded(&mut tr, name, |tr| f(tr, &mut g));
